@@ -2,6 +2,9 @@ package checks
 
 import (
 	"fmt"
+	"hash/fnv"
+	"math/rand"
+	"sync"
 
 	"verif/ev"
 	"verif/gen"
@@ -117,6 +120,11 @@ func RunCorpus(s *sut.SUT, items []Item, fsets []Flags, chunk int, visit func(Se
 			jobs = append(jobs, job{fi, lo, hi})
 		}
 	}
+	// hash of the output each (flag set, item) gave inside its chunk
+	hashes := make([][]uint64, len(fsets))
+	for fi := range hashes {
+		hashes[fi] = make([]uint64, len(items))
+	}
 	parallelDo(len(jobs), func(j int) {
 		jb := jobs[j]
 		lines := make([][]byte, 0, jb.hi-jb.lo)
@@ -130,9 +138,84 @@ func RunCorpus(s *sut.SUT, items []Item, fsets []Flags, chunk int, visit func(Se
 			if o.Out != nil {
 				sn.Out, sn.OutErr = jt.ParseObject(o.Out)
 			}
+			hashes[jb.fi][jb.lo+k] = outHash(o)
 			visit(sn)
 		}
 	})
+	if WholeRuns == 0 || len(items) < 2*chunk {
+		return
+	}
+	// Second arrangement: the whole corpus through ONE process per flag set, in
+	// another order (even flag sets: catalogue order, so every operator path has
+	// been walked before the keyword-named user fields come; odd ones: shuffled).
+	// Every output is judged again by the caller's oracle, and it must equal what
+	// the same line gave inside its chunk: process-wide caches, memo tables and
+	// other state carried from line to line show up as a difference.
+	nw := len(fsets)
+	if WholeRuns > 0 && WholeRuns < nw {
+		nw = WholeRuns
+	}
+	parallelDo(nw, func(fi int) {
+		order := make([]int, len(items))
+		for i := range order {
+			order[i] = i
+		}
+		if fi%2 == 1 {
+			r := rand.New(rand.NewSource(int64(fi)*7919 + int64(len(items))))
+			r.Shuffle(len(order), func(a, b int) { order[a], order[b] = order[b], order[a] })
+		}
+		lines := make([][]byte, len(order))
+		for k, i := range order {
+			lines[k] = items[i].Raw
+		}
+		outs := RunLines(s, fsets[fi], 100000+fi, lines)
+		for k, o := range outs {
+			i := order[k]
+			sn := Seen{Item: items[i], Flags: fsets[fi], Variant: 100000 + fi, Res: o}
+			if o.Out != nil {
+				sn.Out, sn.OutErr = jt.ParseObject(o.Out)
+			}
+			if h := outHash(o); h != hashes[fi][i] {
+				noteContextDiff(fsets[fi], items[i].Raw, o)
+			}
+			wholeMu.Lock()
+			wholeLines++
+			wholeMu.Unlock()
+			visit(sn)
+		}
+	})
+}
+
+// WholeRuns: for how many of the flag sets RunCorpus adds the one-process
+// arrangement (-1 = all, 0 = none).
+var WholeRuns = -1
+
+var (
+	wholeMu      sync.Mutex
+	wholeLines   int
+	contextDiffs []batchAnomaly
+	contextDiffN int
+)
+
+func outHash(o LineOut) uint64 {
+	h := fnv.New64a()
+	h.Write(o.Out)
+	if o.Out == nil {
+		h.Write([]byte("\x00none"))
+	}
+	if o.Crash != "" {
+		h.Write([]byte("\x00crash"))
+	}
+	return h.Sum64()
+}
+
+func noteContextDiff(f Flags, line []byte, o LineOut) {
+	wholeMu.Lock()
+	defer wholeMu.Unlock()
+	contextDiffN++
+	if len(contextDiffs) < 5 {
+		contextDiffs = append(contextDiffs, batchAnomaly{f, string(line), "a line's output inside a whole-corpus run differs from its output inside a 200-line chunk (same flags, same binary): the result depends on the lines processed before it; whole-run output: " + short(o.Out, 400)})
+	}
 }
 
 // replayOf builds the replay record for a case.
